@@ -15,6 +15,8 @@ def handle (input : Json) : Except String Json := do
     | "dir" => .dir
     | "empty" => .file ""
     | "same" => .file "<rendered>"
+    | "symlink-dangling" => .file "<symlink>"   -- the path is occupied, whatever the link points to
+    | "symlink-file" => .file "<symlink>"
     | _ => .file ((Driver.fldStr input "content").toOption.getD "x")
   -- the rendering is abstract: only "was it written" is observed
   let out := initRun Mockery.Generated.initOpenFlags st "<rendered>"
